@@ -324,11 +324,11 @@ func genStateCase(t *rapid.T) StateCase {
 		"addbal", "addbal", "addbal", "addbal", "subbal", "subbal", "subbal", "setbal", "setbal",
 		"setnonce", "setnonce", "setnonce", "setcode", "setcode", "setcode", "create", "create", "create",
 		"suicide", "suicide", "suicide", "refund", "log",
-		"snapshot", "snapshot", "snapshot", "snapshot", "snapshot", "snapshot", "revert", "revert", "revert", "revert", "revert",
+		"snapshot", "snapshot", "snapshot", "snapshot", "snapshot", "snapshot", "snapshot", "revert", "revert", "revert", "revert", "revert", "revert",
 		"iroot", "iroot", "commit", "reopen", "reopen",
 	}
 	var c StateCase
-	n := rapid.IntRange(1, 50).Draw(t, "nOps")
+	n := rapid.IntRange(1, 60).Draw(t, "nOps")
 	for i := 0; i < n; i++ {
 		op := StOp{Op: rapid.SampledFrom(kinds).Draw(t, "op")}
 		switch op.Op {
